@@ -29,7 +29,7 @@ DefaultSegs == <<
   [stem |-> "slide",           num |-> 21, exts |-> <<>>],
   [stem |-> "ppt",             num |-> -1, exts |-> <<>>],
   [stem |-> "p",               num |-> -1, exts |-> <<"bin">>],
-  [stem |-> "q",               num |-> -1, exts |-> <<"bin">>],
+  [stem |-> "q%20r",           num |-> -1, exts |-> <<"bin">>],      \* a percent-escape that is PART OF THE NAME (the member is called q%20r.bin)
   [stem |-> "r",               num |-> -1, exts |-> <<"BIN">>],
   \* 13..: file names for the ACCESSOR family only (MC_PackUri.ExtraNames): index zero, zero-padded digits (field pad = number of
   \* leading zeros in the spelling; num is the VALUE), the decimal digit boundaries, a long stem, the largest 32-bit index
